@@ -294,6 +294,76 @@ theorem shared_history (w : World) (hs : ∀ i j, w.ref.getD i 0 = w.ref.getD j 
     rw [List.getD_eq_getElem?_getD, List.getElem?_set_self hk]
     rfl
 
+/-- every handle refers to the module-level list (object 0) -/
+def AllDefault (w : World) : Prop := ∀ r ∈ w.ref, r = 0
+
+theorem view_default {w : World} (h : AllDefault w) (i : Nat) : w.view i = w.heap.getD 0 [] := by
+  unfold World.view
+  congr 1
+  by_cases hi : i < w.ref.length
+  · rw [List.getD_eq_getElem?_getD, List.getElem?_eq_getElem hi]
+    exact h _ (List.getElem_mem hi)
+  · rw [List.getD_eq_getElem?_getD, List.getElem?_eq_none (by omega)]; rfl
+
+theorem runNet_default (w : World) (h : AllDefault w) (cs : List NetCmd) : AllDefault (runNet w cs) := by
+  induction cs generalizing w with
+  | nil => exact h
+  | cons c cs ih =>
+    cases c with
+    | cmd ord i c => exact ih _ h
+    | connect =>
+      apply ih
+      intro r hr
+      rcases List.mem_append.mp hr with hr | hr
+      · exact h r hr
+      · simpa using hr
+    | disconnect i =>
+      apply ih
+      intro r hr
+      exact h r (List.mem_of_mem_eraseIdx hr)
+
+/-- **late_network_sees_all.**  Networks may be connected and disconnected at any point of a
+history of load / unload / reload commands: every `Irc` object that exists afterwards — also one
+created *after* all the loads — sees the same registration list (and therefore answers the same
+union of commands). -/
+theorem late_network_sees_all (w : World) (h : AllDefault w) (cs : List NetCmd) (i j : Nat) :
+    (runNet w cs).view i = (runNet w cs).view j := by
+  rw [view_default (runNet_default w h cs) i, view_default (runNet_default w h cs) j]
+
+/-- **renames_keep_identity.**  Applying the registered renames to the version of a plugin found on
+disk changes nothing but command names: name, kind and constraints — everything the order theorems
+depend on — and the number of commands stay the same. -/
+theorem renames_keep_identity (rn : Renames) (p q : Plugin) (h : applyRenames rn p = some q) :
+    q.name = p.name ∧ q.kind = p.kind ∧ q.callBefore = p.callBefore ∧ q.callAfter = p.callAfter ∧
+    q.commands.length = p.commands.length := by
+  unfold applyRenames at h
+  generalize (rn.filter fun x => x.1 == p.name) = l at h
+  have key : ∀ (l : Renames) (a : Plugin) (q : Plugin),
+      l.foldl (fun acc x => match acc with
+        | none => none
+        | some q => if q.commands.contains x.2.1 && !q.commands.contains x.2.2 then
+            some { q with commands := q.commands.map fun c => if c == x.2.1 then x.2.2 else c } else none) (some a) = some q →
+      q.name = a.name ∧ q.kind = a.kind ∧ q.callBefore = a.callBefore ∧ q.callAfter = a.callAfter ∧
+      q.commands.length = a.commands.length := by
+    intro l
+    induction l with
+    | nil => intro a q h; simp only [List.foldl_nil, Option.some.injEq] at h; subst h; exact ⟨rfl, rfl, rfl, rfl, rfl⟩
+    | cons x xs ih =>
+      intro a q h
+      simp only [List.foldl_cons] at h
+      split at h
+      · have := ih _ _ h
+        simpa using this
+      · have hn : ∀ (l : Renames), l.foldl (fun acc x => match acc with
+            | none => none
+            | some q => if q.commands.contains x.2.1 && !q.commands.contains x.2.2 then
+                some { q with commands := q.commands.map fun c => if c == x.2.1 then x.2.2 else c } else none) none = (none : Option Plugin) := by
+          intro l; induction l with
+          | nil => rfl
+          | cons y ys ihy => simpa using ihy
+        rw [hn] at h; cases h
+  exact key l p q h
+
 /-! ### commands -/
 
 /-- **commands_union.**  The commands the dispatcher can route are exactly those of the registered
